@@ -154,6 +154,9 @@ func Statement(g *G) Stmt {
 		}
 		if g.F.DDL {
 			kinds = append(kinds, "create_table", "create_table", "create_index", "create_view", "create_materialized_view", "drop", "truncate", "refresh")
+			if g.F.Alter {
+				kinds = append(kinds, "alter_table")
+			}
 		}
 		kind = kinds[g.intn(len(kinds), "ddlkind")]
 		switch kind {
@@ -171,6 +174,8 @@ func Statement(g *G) Stmt {
 			t, n = g.Drop()
 		case "truncate":
 			t, n = g.Truncate()
+		case "alter_table":
+			t, n = g.Alter()
 		default:
 			t, n = g.Refresh()
 		}
